@@ -111,12 +111,14 @@ CHECKS = {
         technique='nullness/ownership/uninitialised typestate + exit contracts, modular over validated function summaries',
     ),
     'C17': dict(
-        category='proof',
+        category='other',
         text='Every allocation routed through jwt_set_alloc (jwt_malloc and each jansson constructor/loader/dumper) is a two-way split on '
              'every path of the public operations (constructors, verify, generate, JWK loading, set/get): no dereference of an unchecked '
              'allocation result, no use or return of released storage, no wrong-family release, failures leave through the documented '
              'channel (C14 exit obligations re-evaluated), no fallible result is discarded, and no library allocation bypasses the '
-             'installed allocator. This is the property\'s "every index k" without a scenario list.',
+             'installed allocator. This is the property\'s "every index k" without a scenario list. One open finding (known_findings.txt): json_dumps of jansson 2.14 returns '
+             'damaged text as success when an internal buffer growth fails; its call sites are reported through the API model and printed as '
+             'KNOWN-FINDING, which is why the level is not proof.',
         design_ref='DESIGN.md section 3 C17',
         note='Allocations made by OpenSSL/GnuTLS with their own allocators are outside jwt_set_alloc and outside the property. "Never '
              'accepts a token it would otherwise reject" is the verdict gate of C01, which quantifies over allocation outcomes. Leaks on '
